@@ -201,12 +201,14 @@ pub fn derive_binary_codec(input: TokenStream) -> TokenStream {
                         Span::call_site(),
                     );
 
+                    let verif_hook = verif_metadata_hook(&case_metadata_name);
                     metadata.push(quote! {
                         lazy_static::lazy_static! {
                             static ref #case_metadata_name: desert::adt::AdtMetadata = {
                                 let mut evolution_steps: Vec<desert::Evolution> = Vec::new();
                                 evolution_steps.push(desert::Evolution::InitialVersion);
                                 #(#case_push_evolution_steps)*
+                                #verif_hook
 
                                 desert::adt::AdtMetadata::new(
                                     evolution_steps,
@@ -303,12 +305,14 @@ pub fn derive_binary_codec(input: TokenStream) -> TokenStream {
         }
     }
 
+    let verif_hook = verif_metadata_hook(&metadata_name);
     metadata.push(quote! {
         lazy_static::lazy_static! {
             static ref #metadata_name: desert::adt::AdtMetadata = {
                 let mut evolution_steps: Vec<desert::Evolution> = Vec::new();
                 evolution_steps.push(desert::Evolution::InitialVersion);
                 #(#push_evolution_steps)*
+                #verif_hook
 
                 desert::adt::AdtMetadata::new(
                     evolution_steps,
@@ -368,6 +372,18 @@ pub fn derive_binary_codec(input: TokenStream) -> TokenStream {
     };
 
     gen.into()
+}
+
+/// With `--cfg desert_verif`: log that the initialiser of this metadata static runs (trace validation
+/// of "each per-type metadata is built once"); otherwise nothing is generated.
+fn verif_metadata_hook(metadata_name: &Ident) -> proc_macro2::TokenStream {
+    if cfg!(desert_verif) {
+        quote! {
+            desert::verif::emit("metainit", 0, 0, 0, 0, concat!(module_path!(), "::", stringify!(#metadata_name)));
+        }
+    } else {
+        quote! {}
+    }
 }
 
 fn derive_field_serialization(
